@@ -4,14 +4,18 @@ mod c03;
 mod c04;
 mod c05;
 mod c06;
+mod c07;
 use c06 as c06_support;
 mod exec;
 mod c09;
 mod c11;
+mod c12;
 mod c13;
+mod c14;
 mod c15;
 mod c18;
 mod c19;
+mod c20;
 mod gate;
 mod mock;
 
@@ -49,9 +53,14 @@ fn main() {
         ("c04", "run") => c04::cmd_run(rest),
         ("c05", "run") => c05::cmd_run(rest),
         ("c06", "walk") => c06::cmd_walk(rest),
+        ("c07", _) => c07::cmd_run(&args[1..]),
+        ("c07-control", _) => c07::cmd_control(&args[1..]),
         ("c09", "run") => c09::cmd_run(rest),
         ("c11", "run") => c11::cmd_run(rest),
+        ("c12", "run") => c12::cmd_run(rest),
         ("c13", "run") => c13::cmd_run(rest),
+        ("c14", "run") => c14::cmd_run(rest),
+        ("c20", "run") => c20::cmd_run(rest),
         ("c15", "walk") => c15::cmd_walk(rest),
         ("c15", "random") => c15::cmd_random(rest),
         ("c18", "run") => c18::cmd_run(rest),
